@@ -418,6 +418,9 @@ func floatSpec[T float32 | float64](c *ctx, pkg, encName, decName string, encF f
 		put(math.SmallestNonzeroFloat64)
 		put(math.MaxFloat32)
 		put(math.SmallestNonzeroFloat32)
+		// regression: float32 whose shortest decimal lies within half a float64 ulp of a float32 midpoint
+		// (parsing with 64 bits and narrowing rounds twice)
+		put(float64(math.Float32frombits(0x15ae43fd)))
 		put(math.Nextafter(1, 2))
 		put(math.Nextafter(1, 0))
 		put(float64(math.Nextafter32(1, 2)))
@@ -448,6 +451,12 @@ func floatSpec[T float32 | float64](c *ctx, pkg, encName, decName string, encF f
 	}
 	key := r.Rand(name, "perm").Uint64()
 	total := r.N(300000, 4000000)
+	if bits == 32 && r.Thorough() {
+		// every float32 bit pattern: perm32 is a bijection, so a full pass is the exhaustive sweep
+		// (double-rounding faults of a 32-bit codec can sit on a single bit pattern)
+		total = 1 << 32
+		r.Set("float32_exhaustive:"+name, true)
+	}
 	s.nShards = bulkShards
 	s.bulk = func(c *ctx, shard int, emit func(T)) {
 		lo, hi := shardRange(total, shard, bulkShards)
